@@ -53,6 +53,7 @@ def run(chk):
         "rejection-rule instances."
     )
     chk.rule("R1", "both union operands are projected by the left table's name list (Polars) / right side re-selected in left order (SQL)")
+    chk.rule("R1v", "Polars union: on every path both stacked frames are projections to the visible columns (finite-domain evaluation)")
     chk.rule("R2", "distinct=True removes duplicates, distinct=False keeps them, on both back ends")
     chk.rule("R3", "recursive leaf visitors descend into `right` of every binary verb")
     chk.rule("R4", "after a union: visible = left sequence in all siblings; cache cols = visible left columns only")
@@ -81,6 +82,49 @@ def run(chk):
     chk.ob("R1", pol, pcfg.func, f"polars Union: df and right_df both select(*{names_var})", good,
            f"Polars union projects {proj} - both operands must be reduced to the left table's visible names in the left order "
            "(otherwise columns are matched by position and hidden columns leak)")  # fmt: skip
+    # value level (A9): on *every* path through the Union slice both frames that are stacked are projections
+    # `<frame>.select(..)` - a projection that is skipped under some condition lets hidden columns take part in the
+    # union (duplicates survive `distinct`, columns are matched by position)
+    from ..flags import module_functions as _mf
+
+    raw_p = [it.node if isinstance(it, Cond) else it for it in items]
+    n_paths = 0
+    unprojected = []
+    for flag in (True, False):
+        ev = Evaluator({f"{pcfg.subject}.distinct": flag, "df": Sym("df"), "right_df": Sym("right_df")})
+        ev.lenient = True
+        ev.skip_loops = True
+        ev.functions = _mf(pol)
+        # `right_df` is bound by the recursive compile of the right child: keep that binding symbolic under its own name
+        try:
+            outs = ev.run_block(raw_p)
+        except Unsupported:
+            outs = []
+        for _r, env, _d in outs:
+            n_paths += 1
+            v = env.get("df")
+            tags = all_tags(v) if v is not None else frozenset()
+            stacked = [t for t in tags if t[0] == "callpos" and t[1].split(".")[-1] in ("union", "concat")]
+            if not stacked:
+                continue
+            for t in stacked:
+                txt = " ".join(str(x) for x in t[2])
+                left_ok = "df.select(" in txt.replace("right_df.select(", "")
+                right_ok = "right_df.select(" in txt
+                if not (left_ok and right_ok):
+                    unprojected.append(txt[:120])
+                else:
+                    import re as _re
+
+                    la = _re.findall(r"(?<!right_)df\.select\(([^)]*)\)", txt)
+                    ra = _re.findall(r"right_df\.select\(([^)]*)\)", txt)
+                    a0, b0 = (la[0].split(",")[0], ra[0].split(",")[0]) if la and ra else ("", "")
+                    k_ = min(len(a0), len(b0))
+                    if la and ra and k_ >= 8 and a0[:k_] != b0[:k_]:
+                        unprojected.append(f"left projects `{la[0]}` but right projects `{ra[0]}` (both must use the left table's visible names)")
+    chk.ob("R1v", pol, pcfg.func, f"polars Union: both stacked frames are projections on all {n_paths} evaluated paths", not unprojected and n_paths >= 2,
+           f"on some path the Polars union stacks a frame that was not reduced to the visible columns ({unprojected[0] if unprojected else 'no path evaluated'}): "
+           "hidden columns take part in the union - rows that differ only in a hidden column survive distinct=True")  # fmt: skip
     # ---- R1 sql
     sql = repo.mod("backend.sql")
     items_s = Slicer(sym, sql, scfg.subject, uc).slice(scfg.func.body)
